@@ -846,3 +846,18 @@ func runsBefore(a, b ssa.Instruction, root *ssa.Function, grp []*ssa.Function) b
 	la, lb := liftInstr(a, root, grp, true), liftInstr(b, root, grp, false)
 	return la != nil && lb != nil && la != lb && instrDominates(la, lb)
 }
+
+// cname: the baseline (rename-independent) base name of a function or method; for an
+// instantiation of a generic function the name of its origin.
+func cname(fn *ssa.Function) string {
+	if fn == nil {
+		return ""
+	}
+	if o := fn.Origin(); o != nil {
+		fn = o
+	}
+	if obj := fn.Object(); obj != nil {
+		return canonName(obj)
+	}
+	return fn.Name()
+}
